@@ -189,8 +189,6 @@ Proof.
 Qed.
 
 (* what extraction shows for a stretch of sequence bytes, on the whole byte range *)
-Definition read_back (s : list N) : list N :=
-  map (fun c => if is_letter c then norm_letter c else 78) (filter keep s).
 
 Lemma out_convert_read_back : forall s, out_letters (convert s) = read_back s.
 Proof.
@@ -249,7 +247,6 @@ Proof.
     rewrite IH; auto.
 Qed.
 
-Definition ends_lf (a : list N) : Prop := a = [] \/ exists a0 c, a = a0 ++ [c] /\ is_eol c = true.
 
 Lemma lines_app : forall a b, ends_lf a -> lines (a ++ b) = lines a ++ lines b.
 Proof.
@@ -402,8 +399,6 @@ Proof.
 Qed.
 
 (* ------------------------------------------------------------------ deliver, characterised *)
-Definition wanted (r : list N * list N) : bool := negb (is_nil (rec_name r)) && negb (is_nil (snd r)).
-Definition as_contig (r : list N * list N) : list N * list N := (rec_name r, convert (snd r)).
 
 Lemma deliver_ok : forall gs, existsb nameless_with_bases gs = false ->
   deliver gs = Ok (map as_contig (filter wanted gs)).
@@ -474,7 +469,6 @@ Theorem parse_records : forall text, first_line_ok text = true -> parse text = d
 Proof. intros. rewrite parse_exact, deliver_records; auto. Qed.
 
 (* ================================================================== what create pushes *)
-Definition has_named_base (r : list N * list N) : bool := negb (is_nil (rec_name r)) && rec_has_base r.
 
 Lemma nonempty_wanted : forall gs,
   nonempty_contigs (map as_contig (filter wanted gs)) = map as_contig (filter has_named_base gs).
@@ -550,7 +544,6 @@ Proof.
 Qed.
 
 (* ================================================================== rendering *)
-Definition eol_ok (eol : list N) : Prop := eol = eol_lf \/ eol = eol_crlf.
 
 Lemma wrap_go_filter : forall w eol, forallb (fun c => negb (keep c)) eol = true ->
   forall s col, filter keep (wrap_go w col eol s) = filter keep s.
@@ -757,7 +750,6 @@ Proof.
       destruct (deliver G1) as [x| |]; destruct (deliver G2) as [y| |]; simpl; auto.
 Qed.
 
-Definition starts_gt (t : list N) : Prop := t = [] \/ exists t', t = record_marker_byte :: t'.
 
 Lemma lines_starts_rec : forall t, starts_gt t -> starts_rec (lines t).
 Proof.
@@ -787,7 +779,6 @@ Proof.
 Qed.
 
 (* PanSN headers: the sample name does not depend on the file name *)
-Definition is_pansn (id : list N) : bool := pansn_min_parts <=? lenN (split_on pansn_sep_byte id).
 
 Lemma sample_for_pansn_indep : forall fn fn' id, is_pansn id = true -> sample_for fn id = sample_for fn' id.
 Proof.
@@ -799,8 +790,6 @@ Proof.
   rewrite E. reflexivity.
 Qed.
 
-Definition all_pansn (t : list N) : Prop :=
-  forall rs, pushed t = Ok rs -> Forall (fun r => is_pansn (fst r) = true) rs.
 
 Lemma contig_stream_indep : forall fn fn' t, all_pansn t -> contig_stream fn t = contig_stream fn' t.
 Proof.
@@ -809,7 +798,6 @@ Proof.
   rewrite (sample_for_pansn_indep fn fn' (fst r) (H r Hr)). reflexivity.
 Qed.
 
-Definition file_ok (t : list N) : Prop := ends_lf t /\ starts_gt t.
 
 Lemma concat_starts_gt : forall ts, Forall starts_gt ts -> starts_gt (concat ts).
 Proof.
@@ -1079,15 +1067,6 @@ Proof.
 Qed.
 
 (* ================================================================== the catalogue built by create *)
-Definition archive : Type := list (list N * list (list N * list N)).
-
-Fixpoint contigs_of (arch : archive) (s : list N) : list (list N * list N) :=
-  match arch with
-  | [] => []
-  | (s', cs) :: a => if bytes_eqb s' s then cs else contigs_of a s
-  end.
-Definition has_contig (arch : archive) (s n : list N) : bool :=
-  existsb (fun x => bytes_eqb (fst x) n) (contigs_of arch s).
 
 Lemma bytes_eqb_sym : forall a b, bytes_eqb a b = bytes_eqb b a.
 Proof.
@@ -1162,8 +1141,6 @@ Proof.
   - simpl app. cbn [collect]. destruct (add_contig arch (s', n', c')); [apply IH | reflexivity].
 Qed.
 
-Definition of_sample (s : list N) (cs : list contig3) : list (list N * list N) :=
-  map (fun x => (snd (fst x), snd x)) (filter (fun x => bytes_eqb (fst (fst x)) s) cs).
 
 (* nothing is lost or reordered: each sample holds exactly its contigs, in order of arrival *)
 Lemma collect_contigs : forall cs arch a, collect arch cs = Ok a ->
@@ -1195,9 +1172,89 @@ Proof.
     unfold has_contig in D. destruct (bytes_eqb s s') eqn:Es.
     + apply list_eqb_eq in Es. subst s'. rewrite S2, existsb_app in D. apply orb_prop in D. destruct D as [D|D].
       * left. exact D.
-      * right. simpl in D. rewrite orb_false_r in D. cbn [existsb fst snd]. rewrite bytes_eqb_refl, (bytes_eqb_sym n' n), D. reflexivity.
+      * right. simpl in D. rewrite orb_false_r in D. simpl. rewrite bytes_eqb_refl, D. reflexivity.
     + left. rewrite (S3 s Es) in D. exact D.
   - exists [], s', n', c', cs. split; [reflexivity|]. left.
     destruct (has_contig arch s' n') eqn:X; auto.
     destruct (add_contig_some arch s' n' c' X) as [a E]. congruence.
 Qed.
+
+(* ================================================================== statements in the shape pinned in props/C16.v *)
+Lemma parser_complete_lemma : forall text, first_line_ok text = true ->
+  (existsb nameless_with_bases (records text) = true /\ parse text = Err) \/
+  (existsb nameless_with_bases (records text) = false /\
+   parse text = Ok (map (fun r => (rec_name r, convert (snd r)))
+                        (filter (fun r => negb (is_nil (rec_name r)) && negb (is_nil (snd r))) (records text)))).
+Proof.
+  intros text F. destruct (existsb nameless_with_bases (records text)) eqn:E; [left | right]; split; auto.
+  - rewrite parse_records, deliver_err; auto.
+  - rewrite parse_records, deliver_ok; auto.
+Qed.
+
+Lemma pushed_complete_lemma : forall text, first_line_ok text = true ->
+  (existsb nameless_with_bases (records text) = true /\ pushed text = Err) \/
+  (existsb nameless_with_bases (records text) = false /\
+   pushed text = Ok (map (fun r => (rec_name r, convert (snd r)))
+                         (filter (fun r => negb (is_nil (rec_name r)) && rec_has_base r) (records text)))).
+Proof.
+  intros text F. destruct (existsb nameless_with_bases (records text)) eqn:E; [left | right]; split; auto.
+  - apply pushed_err; auto.
+  - apply pushed_ok; auto.
+Qed.
+
+Lemma odd_bytes_lemma :
+  (forall c, odd_byte c = true <-> (91 <= c <= 96 \/ 123 <= c <= 127)) /\
+  (forall s, out_letters (convert s) = map (fun c => if is_letter c then norm_letter c else 78) (filter keep s)).
+Proof. split; [exact odd_byte_iff | exact out_convert_read_back]. Qed.
+
+Lemma collect_fails_lemma : forall cs, collect [] cs = Err ->
+  exists cs1 s n c cs2, cs = cs1 ++ (s, n, c) :: cs2 /\
+    existsb (fun x => bytes_eqb (fst (fst x)) s && bytes_eqb (snd (fst x)) n) cs1 = true.
+Proof.
+  intros cs H. destruct (collect_err_dup cs [] H) as [cs1 [s [n [c [cs2 [E [D|D]]]]]]].
+  - discriminate.
+  - exists cs1, s, n, c, cs2. auto.
+Qed.
+
+Lemma first_line_refuted_lemma : exists text,
+  first_line_ok text = false /\ parse text <> deliver (records text) /\ parse text = Ok [([97], [2; 2])].
+Proof. exists [65;67;71;84;10;62;97;10;71;71;10]. vm_compute. repeat split; try reflexivity. discriminate. Qed.
+
+(* ================================================================== statements in the shape pinned in props/C19.v *)
+Lemma contig_stream_name : forall f f' t, sample_name_of_file f = sample_name_of_file f' ->
+  contig_stream f t = contig_stream f' t.
+Proof.
+  intros f f' t H. unfold contig_stream. destruct (pushed t); auto. simpl. f_equal. apply map_ext.
+  intro r. unfold sample_for. rewrite H. reflexivity.
+Qed.
+
+Lemma presentation_invariant_lemma : forall fn w eol mask w' eol' mask' rs,
+  eol_ok eol -> eol_ok eol' -> forallb good_rec rs = true ->
+  contig_stream fn (render w eol mask rs) = contig_stream fn (render w' eol' mask' rs).
+Proof.
+  intros. unfold contig_stream, pushed. rewrite !parse_render_lemma; auto.
+Qed.
+
+Lemma letters_read_back_lemma : forall s, forallb is_letter s = true -> out_letters (map cnv s) = norm s.
+Proof.
+  intros s H. rewrite <- normal_form.
+  - unfold convert. rewrite filter_all; [reflexivity|]. rewrite forallb_forall in *. intros c Hc. apply letter_keep. apply H. exact Hc.
+  - intros c Hc. rewrite forallb_forall in H. unfold odd_byte. rewrite (H c Hc). apply andb_false_r.
+Qed.
+
+Section GzCreate.
+  Variable gzip : list N -> list N.
+  Variable gunzip : list N -> option (list N).
+  Hypothesis gunzip_members : forall xs, xs <> [] -> gunzip (concat (map gzip xs)) = Some (concat xs).
+
+  Lemma create_input_invariant_lemma : forall s xs w eol mask w' eol' mask' rs,
+    xs <> [] -> concat xs = render w' eol' mask' rs ->
+    eol_ok eol -> eol_ok eol' -> forallb good_rec rs = true ->
+    input_stream gunzip (s ++ ext_fa_gz) (concat (map gzip xs)) = input_stream gunzip (s ++ ext_fa) (render w eol mask rs).
+  Proof.
+    intros s xs w eol mask w' eol' mask' rs Hx Hc He He' G.
+    destruct (sample_name_gz_lemma s) as [N1 [N2 N3]]. unfold ext_fa_gz, ext_fa, input_stream, file_bytes.
+    rewrite N2, N3, (gunzip_members xs Hx), Hc.
+    rewrite (contig_stream_name _ _ _ N1). apply presentation_invariant_lemma; auto.
+  Qed.
+End GzCreate.
